@@ -125,6 +125,7 @@ func buildConfs(r *vk.Run, ps []planT) []*confT {
 }
 
 func TestCheck(t *testing.T) {
+	vk.UseT(t)
 	r := vk.Start("C20", "model_checking", 170*time.Second, 22*time.Minute)
 	defer vk.CleanScratch()
 	if r.Replay != "" {
